@@ -149,6 +149,7 @@ type world struct {
 	keys    []*k1.PrivateKey
 	peers   []peer.ID
 	comps   map[string]*bcast.Component // honest member/session
+	mu2     sync.Mutex                  // guards gates
 	mu      sync.Mutex                  // serialises handler calls + their events
 	last    *cbRecord                   // callback capture of the handler call in progress
 	byBytes map[string]sigDesc          // signature bytes -> the request that produced them
@@ -156,9 +157,64 @@ type world struct {
 	step    drv.Step                    // the Bcast step in progress (policies of the faulty members)
 	flying  int
 	idle    *sync.Cond
-	turn    []chan struct{} // signature requests of the running Broadcast are served in peer order
+	gates   map[string]*gate // member/session -> gate of the concurrent step in progress
+	calls   int              // SigCall ids
+	turn    []chan struct{}  // signature requests of the running Broadcast are served in peer order
 	served  int
 	allDone chan struct{} // closed when every peer's request has been served
+}
+
+// gate forces the overlap of concurrent signature requests at one component without any timing: a request that
+// reaches the signing step parks there until every request of the step is either parked too or has returned.
+type gate struct {
+	mu       sync.Mutex
+	cond     *sync.Cond
+	parked   int
+	returned int
+	open     bool
+}
+
+func newGate() *gate {
+	g := &gate{}
+	g.cond = sync.NewCond(&g.mu)
+
+	return g
+}
+
+func (g *gate) park() {
+	g.mu.Lock()
+	g.parked++
+	g.cond.Broadcast()
+	for !g.open {
+		g.cond.Wait()
+	}
+	g.mu.Unlock()
+}
+
+// settled waits until k requests are parked or have returned; false after a generous wait (a hang).
+func (g *gate) settled(k int) bool {
+	done := make(chan struct{})
+	stop := false
+	go func() {
+		g.mu.Lock()
+		for g.parked+g.returned < k && !stop {
+			g.cond.Wait()
+		}
+		g.mu.Unlock()
+		close(done)
+	}()
+	select {
+	case <-done:
+		return true
+	case <-time.After(10 * time.Second):
+		g.mu.Lock()
+		stop = true
+		g.cond.Broadcast()
+		g.mu.Unlock()
+		<-done
+
+		return false
+	}
 }
 
 type cbRecord struct {
@@ -190,7 +246,8 @@ func sessionHash(s string) []byte {
 func newWorld(t *testing.T, tr *drv.Tracer, hosts []host.Host, keys []*k1.PrivateKey, n int, faulty map[int]bool) *world {
 	t.Helper()
 	w := &world{t: t, tr: tr, n: n, faulty: faulty, hosts: hosts, keys: keys,
-		comps: map[string]*bcast.Component{}, byBytes: map[string]sigDesc{}, adv: map[string][]byte{}}
+		comps: map[string]*bcast.Component{}, byBytes: map[string]sigDesc{}, adv: map[string][]byte{},
+		gates: map[string]*gate{}}
 	w.idle = sync.NewCond(&w.mu)
 	for i := 0; i < n; i++ {
 		w.peers = append(w.peers, hosts[i].ID())
@@ -205,6 +262,19 @@ func newWorld(t *testing.T, tr *drv.Tracer, hosts []host.Host, keys []*k1.Privat
 				c.RegisterMessageIDFuncs(id, w.callback(m), checkMessage)
 			}
 			c.VerifUseTransport(hosts[m-1], w.sendRecv(m, s), w.send(m, s))
+			key := ck(m, s)
+			c.VerifWrapSignFunc(func(orig func(string, []byte) ([]byte, error)) func(string, []byte) ([]byte, error) {
+				return func(id string, hash []byte) ([]byte, error) {
+					w.mu2.Lock()
+					g := w.gates[key]
+					w.mu2.Unlock()
+					if g != nil {
+						g.park()
+					}
+
+					return orig(id, hash)
+				}
+			})
 			w.comps[ck(m, s)] = c
 		}
 	}
@@ -376,6 +446,81 @@ func (w *world) callMsg(r int, s string, from int, msg *pb.BCastMessage, sigs []
 		ev["why"] = err.Error()
 	}
 	w.tr.Emit(ev)
+}
+
+// concurrent issues the requests one after the other, each as soon as the previous one is parked in the signing
+// step or has returned; when all are parked or have returned, the parked ones are let go.
+func (w *world) concurrent(f, m int, s string, reqs []any) bool {
+	g := newGate()
+	w.mu2.Lock()
+	w.gates[ck(m, s)] = g
+	w.mu2.Unlock()
+	defer func() {
+		w.mu2.Lock()
+		delete(w.gates, ck(m, s))
+		w.mu2.Unlock()
+	}()
+	var wg sync.WaitGroup
+	hung := false
+	for j, x := range reqs {
+		rq, _ := x.(map[string]any)
+		id := drv.Str(rq["id"])
+		pl := decode[payload](rq["pl"])
+		w.mu.Lock()
+		w.calls++
+		k := w.calls
+		w.tr.Emit(drv.Step{"ev": "SigCall", "k": k, "m": m, "sess": s, "req": f, "id": id, "pl": pl.step()})
+		w.mu.Unlock()
+		wg.Add(1)
+		go func() {
+			defer wg.Done()
+			var (
+				resp *pb.BCastSigResponse
+				err  error
+			)
+			func() {
+				defer func() {
+					if r := recover(); r != nil {
+						err = errors.New("panic: " + fmt.Sprint(r))
+					}
+				}()
+				ctx, cancel := context.WithTimeout(context.Background(), time.Minute)
+				defer cancel()
+				resp, err = w.comps[ck(m, s)].VerifHandleSigRequest(ctx, w.peers[f-1], &pb.BCastSigRequest{Id: id, Message: pl.toAny()})
+			}()
+			w.mu.Lock()
+			ev := drv.Step{"ev": "SigRet", "k": k, "ok": err == nil}
+			if err != nil {
+				ev["why"] = err.Error()
+			} else {
+				d := sigDesc{By: m, Sess: s, ID: id, Pl: pl}
+				w.adv[d.key()] = resp.GetSignature()
+				if _, dup := w.byBytes[hex.EncodeToString(resp.GetSignature())]; !dup {
+					w.byBytes[hex.EncodeToString(resp.GetSignature())] = d
+				}
+			}
+			w.tr.Emit(ev)
+			g.mu.Lock()
+			g.returned++
+			g.cond.Broadcast()
+			g.mu.Unlock()
+			w.mu.Unlock()
+		}()
+		if !g.settled(j + 1) {
+			hung = true
+			break
+		}
+	}
+	g.mu.Lock()
+	g.open = true
+	g.cond.Broadcast()
+	g.mu.Unlock()
+	if hung {
+		return true
+	}
+	wg.Wait()
+
+	return false
 }
 
 // ---------------------------------------------------------------------------------------------
@@ -664,6 +809,17 @@ func runOne(t *testing.T, tr *drv.Tracer, hosts []host.Host, keys []*k1.PrivateK
 				w.adv[sigDesc{By: m, Sess: s, ID: id, Pl: pl}.key()] = resp.GetSignature()
 			}
 			w.mu.Unlock()
+		case "FSigC":
+			// several requests of f are inside m's handler at the same time
+			f, m := drv.Num(st["f"]), drv.Num(st["m"])
+			reqs, _ := st["reqs"].([]any)
+			if !faulty[f] || f < 1 || f > n || !honest(m, s) || len(reqs) == 0 {
+				continue
+			}
+			if hung := w.concurrent(f, m, s, reqs); hung {
+				tr.Emit(drv.Step{"ev": "Hang"})
+				return true
+			}
 		case "FSend":
 			f, r := drv.Num(st["f"]), drv.Num(st["r"])
 			if !faulty[f] || f < 1 || f > n || !honest(r, s) {
